@@ -179,3 +179,22 @@ func VxH_C08_sides() {
 		}
 	}
 }
+
+// "!important" with comments and white space anywhere around and inside it: the declaration is
+// the same as with a plain " !important", and differs from the non-important one only by
+// its flag.
+func VxH_C08_important_comments() {
+	seps := []string{"", " ", "/**/", " /* c */ ", "\n/**/\t"}
+	s1 := seps[vx.Choose("before-bang", len(seps))]
+	s2 := seps[vx.Choose("after-bang", len(seps))]
+	s3 := seps[vx.Choose("after-important", len(seps))]
+	word := []string{"important", "IMPORTANT", "Important"}[vx.Choose("spelling", 3)]
+	decl := []string{"color: red", "margin: 1px 2px", "width: 10px"}[vx.Choose("decl", 3)]
+	src := decl + s1 + "!" + s2 + word + s3
+	got := PreprocessDeclarations("", pa.ParseBlocksContentsString(src))
+	ref := PreprocessDeclarations("", pa.ParseBlocksContentsString(decl+" !important"))
+	plain := PreprocessDeclarations("", pa.ParseBlocksContentsString(decl))
+	vx.Reach("validated")
+	vx.Assert("reference-is-important", len(ref) > 0 && len(ref) == len(plain) && ref[0].Important && !plain[0].Important)
+	vx.Assert("comments-and-space-around-important-irrelevant", vx.DeepEqual(got, ref))
+}
